@@ -2365,6 +2365,50 @@ def tag_grammar(repo, rule="E1"):
     raise AnalysisError(rule, "gaftools/", "cannot find the tag grammar (type-letter table, tag pattern and validator)")
 
 
+def inline_object_aliases(func):
+    """A Func in which a local bound once to an attribute path of another local (`node_tags = node.tags`) is replaced by
+    that path wherever it is used - also as the target of a subscript store or the receiver of a mutating call: both
+    names denote the same object as long as neither the path's root nor the attribute is bound again, which is checked."""
+    import copy
+
+    node = copy.deepcopy(func.node)
+    stores = {}
+    for n in ast.walk(node):
+        if isinstance(n, ast.Name) and isinstance(n.ctx, ast.Store):
+            stores[n.id] = stores.get(n.id, 0) + 1
+    attr_rebinds = {norm(n) for n in ast.walk(node) if isinstance(n, ast.Attribute) and isinstance(n.ctx, (ast.Store, ast.Del))}
+    env = {}
+    for st in walk_stmts(node.body):
+        if isinstance(st, ast.Assign) and len(st.targets) == 1 and isinstance(st.targets[0], ast.Name) and isinstance(st.value, ast.Attribute):
+            a = st.targets[0].id
+            path = st.value
+            root = path
+            ok = True
+            while isinstance(root, ast.Attribute):
+                root = root.value
+            if not isinstance(root, ast.Name) or stores.get(a, 0) != 1 or stores.get(root.id, 0) > 1 or root.id == a or a in func.params:
+                continue
+            if norm(path) in attr_rebinds:
+                continue
+            env[a] = (path, st)
+    if not env:
+        return func
+
+    class R(ast.NodeTransformer):
+        def visit_Name(self, n):
+            if n.id in env and isinstance(n.ctx, ast.Load):
+                return ast.copy_location(copy.deepcopy(env[n.id][0]), n)
+            return n
+
+    defs = {id(v[1]) for v in env.values()}
+    for st in list(walk_stmts(node.body)):
+        if id(st) in defs:
+            continue
+        R().visit(st)
+    ast.fix_missing_locations(node)
+    return Func(func.module, func.qualname, node, func.cls, func.parent)
+
+
 def make_resolver(stmts, depth=4):
     """res(expr) -> expr with the names that are bound exactly once in `stmts` (plain assignments; tuple targets unpacked
     from a name / subscript are read as its elements) replaced by their definitions, repeatedly.  Returns an AST."""
@@ -2376,7 +2420,10 @@ def make_resolver(stmts, depth=4):
             t = st.targets[0]
             if isinstance(t, ast.Name):
                 env.setdefault(t.id, []).append(st.value)
-            elif isinstance(t, ast.Tuple) and all(isinstance(e, ast.Name) for e in t.elts) and isinstance(st.value, (ast.Subscript, ast.Name)):
+            elif isinstance(t, ast.Tuple) and all(isinstance(e, ast.Name) for e in t.elts) and isinstance(st.value, ast.Tuple) and len(st.value.elts) == len(t.elts):
+                for e, v in zip(t.elts, st.value.elts):
+                    env.setdefault(e.id, []).append(v)
+            elif isinstance(t, ast.Tuple) and all(isinstance(e, ast.Name) for e in t.elts) and isinstance(st.value, (ast.Subscript, ast.Name, ast.Call)):
                 for k_, e in enumerate(t.elts):
                     env.setdefault(e.id, []).append(ast.Subscript(value=st.value, slice=ast.Constant(value=k_), ctx=ast.Load()))
         elif isinstance(st, (ast.AugAssign, ast.For)):
